@@ -13,9 +13,11 @@
 (*          every component re-symbolised (s) and given the identity (id)  *)
 (*          of its concrete string; out = the driver's own verdict from    *)
 (*          filepath.Rel on the cleaned absolute path                      *)
-(*   Fs     a file that appeared (created) or a sentinel that disappeared  *)
-(*          (gone) in the sandbox tree, as a path relative to the data     *)
-(*          directory                                                      *)
+(*   Fs     a file that appeared (created), a sentinel that disappeared    *)
+(*          (gone) or whose content changed (modified: truncated / written *)
+(*          through a link) in the sandbox tree, as a path relative to the *)
+(*          data directory; the tree is walked WITHOUT following links, so *)
+(*          the paths are physical locations (archives with link entries) *)
 (* A failed obligation does not block the step; its tag is stored in viol  *)
 (* and printed ("@@V <line> <tag>") so that one TLC run reports all        *)
 (* violating lines.  Tag "M.*" = driver and spec disagree on a resolution  *)
@@ -55,15 +57,16 @@ TrOpen ==
           /\ opened' = opened \cup {[file |-> Ev.file, r |-> r]}
     /\ l' = l + 1 /\ UNCHANGED own
 
-\* @obligation C07.created  @obligation C07.remove
+\* @obligation C07.created  @obligation C07.remove  @obligation C07.modified
 TrFs ==
     /\ Ev.op = "Fs"
-    /\ Ev.kind \in {"created", "gone"}
+    /\ Ev.kind \in {"created", "gone", "modified"}
     /\ LET r == Res(RootOf(UT), Ev.path)
            inside == IsPrefix(own, r) /\ Len(r) > Len(own)
            v == IF Ev.out # (IF inside THEN 0 ELSE 1) THEN "M.resolve-mismatch"
                 ELSE IF Ev.kind = "created" /\ ~inside THEN "C07.created"
                 ELSE IF Ev.kind = "gone" /\ Outside(own, r) THEN "C07.remove"
+                ELSE IF Ev.kind = "modified" /\ Outside(own, r) THEN "C07.modified"
                 ELSE ""
        IN viol' = v /\ Report(v)
     /\ l' = l + 1 /\ UNCHANGED <<own, opened>>
